@@ -198,7 +198,8 @@ Definition annotate_core_sorted (defs : list (list Z * list (list Z))) : list (l
      5  _find_hybrids: sorted(unassigned, key=core start)     6  _find_hybrids: _ordered(unassigned)
      7  _find_interleaved: sorted(set(clusters).difference(found))
      8  _find_neighbouring: for single in unassigned (origin-crossing edge candidates)
-     9  _find_neighbouring: sorted(unassigned)
+     (site 9, _find_neighbouring: sorted(unassigned), is gone since the repair of C05's finding
+      neighbouring_singles_not_linked: the function now passes the list `singles` it was given)
    (set sizes, membership tests, min() over a set and set equality do not depend on the order and stay as in C05) *)
 Module FO.
 Import ASV.Common.Loc C05.Model.
@@ -258,8 +259,7 @@ Definition find_interleaved_o (en : enum) (clusters : list proto) (cands : list 
   let found1 := concat (map (fun xy => [fst xy; snd xy]) pp) in
   let hits := flat_map (fun cl =>
                   map (fun ck => (ck, cl))
-                      (cand_scan (fun ck => overlap (snd ck) (pcore cl)) (lend (ploc cl))
-                                 (skipn (window_index cc cl) cc))) by_core in
+                      (filter (fun ck : cand * loc => overlap (snd ck) (pcore cl)) cc)) by_core in
   let groups2 := groups1 ++ map (fun h => cmem (fst (fst h)) ++ [snd h]) hits in
   let found2 := found1 ++ map snd hits in
   do fg <- find_cross_origin_interleaved w cc by_core groups2;
@@ -270,8 +270,7 @@ Definition find_neighbouring_o (en : enum) (singles : list proto) (cands : list 
   let groups0 := find_neighbouring_candidates cands in
   let hits := flat_map (fun s =>
                  map (fun c => (c, s))
-                     (cand_scan_plain (fun c => overlap (ploc s) (cloc c)) (lend (ploc s))
-                                      (skipn (window_index_plain cands s) cands ++ firstn 1 cands))) singles in
+                     (filter (fun c => overlap (ploc s) (cloc c)) cands)) singles in
   let groups1 := groups0 ++ map (fun h => union (cmem (fst h)) [snd h]) hits in
   let unassigned := diff singles (map snd hits) in
   let edges :=
@@ -290,10 +289,10 @@ Definition find_neighbouring_o (en : enum) (singles : list proto) (cands : list 
                         | [] => []
                         end) edges in
   let groups2 := groups1 ++ edge_groups in
-  merge_sets_o en (groups2 ++ find_neighbouring_protoclusters (sort_by lt_pp (en 9 unassigned))).
+  merge_sets_o en (groups2 ++ find_neighbouring_protoclusters singles).
 
 Definition formation_body_o (en : enum) (protos : list proto) (w : option Z) : res (list cand) :=
-  let unassigned0 := sort_by lt_pp protos in
+  let unassigned0 := ordered_list protos in
   do hu <- find_hybrids_o en unassigned0 w;
   let '(hybrid_groups, unassigned1) := hu in
   do b1 <- build_candidates_o en w K_HYBRID hybrid_groups [] [];
